@@ -66,8 +66,18 @@ func (c *c09PCol) SetStatus(r string, err error) {
 	c.st = append(c.st, r+"="+res)
 }
 
-// op: C09 pipe <client>:<eff>+<eff>,...   <failing effective ids e.g. 11,12 or ->
-// client address c<i>@example.org ; effective address e<j>@example.org ; "<i>:" alone = not rewritten
+// op: C09 pipe <client>:<eff>+<eff>,...   <failing effective ids e.g. 11,12 or ->   <placement>
+// client address c<i>@example.org (i < 10); effective address e<j>@example.org (j >= 10);
+// "<i>:" alone = not rewritten. An effective id below 10 is the address of CLIENT recipient j
+// (c<j>@example.org): the rewrite result of one client-supplied recipient is itself an address
+// the client supplied (and which may be rewritten further: a->b, b->c).
+func c09PAddr(id string) string {
+	if n, err := strconv.Atoi(id); err == nil && n < 10 {
+		return "c" + id + "@example.org"
+	}
+	return "e" + id + "@example.org"
+}
+
 func c09Pipe(out *vh.Out, op string) {
 	toks := strings.Fields(op)
 	rw := map[string][]string{}
@@ -79,7 +89,7 @@ func c09Pipe(out *vh.Out, op string) {
 		clients = append(clients, c)
 		if f[1] != "" {
 			for _, e := range strings.Split(f[1], "+") {
-				rw[c] = append(rw[c], "e"+e+"@example.org")
+				rw[c] = append(rw[c], c09PAddr(e))
 			}
 			effOf[c] = rw[c]
 		} else {
@@ -89,8 +99,7 @@ func c09Pipe(out *vh.Out, op string) {
 	fail := map[string]bool{}
 	if toks[3] != "-" {
 		for _, e := range strings.Split(toks[3], ",") {
-			fail["e"+e+"@example.org"] = true
-			fail["c"+e+"@example.org"] = true
+			fail[c09PAddr(e)] = true
 		}
 	}
 	tgt := &c09PTarget{fail: fail}
@@ -148,9 +157,12 @@ func c09Pipe(out *vh.Out, op string) {
 		isClient[c] = true
 	}
 	got := map[string]int{}
+	gotVals := map[string][]string{}
 	for _, s := range col.st {
-		k := strings.SplitN(s, "=", 2)[0]
+		kv := strings.SplitN(s, "=", 2)
+		k := kv[0]
 		got[k]++
+		gotVals[k] = append(gotVals[k], kv[1])
 		if !isClient[k] {
 			out.Violation("C09/pipeline-status-under-effective-address", op, "result reported under "+k+" which the client never supplied; "+strings.Join(col.st, ","))
 		}
@@ -163,6 +175,23 @@ func c09Pipe(out *vh.Out, op string) {
 			collide[e]++
 		}
 	}
+	anyCollision := false
+	for _, n := range collide {
+		if n > 1 {
+			anyCollision = true
+		}
+	}
+	chained := false
+	for _, c := range clients {
+		for _, e := range effOf[c] {
+			if e != c && isClient[e] {
+				chained = true
+			}
+		}
+	}
+	if chained {
+		out.Stat("pipe.rewritten-to-another-client-address")
+	}
 	for _, c := range clients {
 		want := len(effOf[c])
 		if got[c] != want {
@@ -173,6 +202,25 @@ func c09Pipe(out *vh.Out, op string) {
 				}
 			}
 			out.Violation(sig, op, fmt.Sprintf("client recipient %s expanded to %d effective recipients, %d results; %s", c, want, got[c], strings.Join(col.st, ",")))
+			continue
+		}
+		if anyCollision {
+			continue // known finding KF-C09-1: results are misfiled between the colliding recipients
+		}
+		// the results filed under a client-supplied recipient are those of ITS effective recipients
+		var wantVals []string
+		for _, e := range effOf[c] {
+			if fail[e] {
+				wantVals = append(wantVals, "f")
+			} else {
+				wantVals = append(wantVals, "o")
+			}
+		}
+		sort.Strings(wantVals)
+		gv := append([]string{}, gotVals[c]...)
+		sort.Strings(gv)
+		if strings.Join(gv, "") != strings.Join(wantVals, "") {
+			out.Violation("C09/pipeline-result-of-another-recipient", op, fmt.Sprintf("client recipient %s: its effective recipients ended %v, results reported under it %v; %s", c, wantVals, gv, strings.Join(col.st, ",")))
 		}
 	}
 	out.Stat("pipe.clients." + strconv.Itoa(len(clients)))
@@ -216,6 +264,69 @@ func TestVerifC09Pipeline(t *testing.T) {
 			parts[0] = "1:77"
 			parts[1] = "2:77"
 			effs = append(effs, "77")
+		} else if r.Chance(35) {
+			// the rewrite result of one client-supplied recipient is the address of another
+			// client-supplied recipient, which is itself rewritten to something else (a->b, b->c;
+			// longer chains; a swap a->b, b->a; inside a 1-to-N expansion). Every effective address
+			// stays unique, so this is NOT the collision of KF-C09-1.
+			nc = 2 + r.Intn(3)
+			parts, effs = nil, nil
+			order := make([]int, nc)
+			for k := range order {
+				order[k] = k + 1
+			}
+			for k := nc - 1; k > 0; k-- {
+				j := r.Intn(k + 1)
+				order[k], order[j] = order[j], order[k]
+			}
+			target := map[int]string{}
+			used := map[string]bool{}
+			links := 1 + r.Intn(nc-1)
+			swap := r.Chance(20)
+			if swap {
+				target[order[0]] = strconv.Itoa(order[1])
+				target[order[1]] = strconv.Itoa(order[0])
+			} else {
+				// order[0] -> order[1] -> ... -> order[links] -> fresh effective address
+				for k := 0; k < links; k++ {
+					target[order[k]] = strconv.Itoa(order[k+1])
+				}
+				next++
+				target[order[links]] = strconv.Itoa(next)
+			}
+			for c := 1; c <= nc; c++ {
+				tg, ok := target[c]
+				switch {
+				case !ok && r.Chance(50):
+					next++
+					tg = strconv.Itoa(next)
+				case !ok:
+					tg = ""
+				case r.Chance(25):
+					next++
+					if r.Chance(50) {
+						tg = tg + "+" + strconv.Itoa(next)
+					} else {
+						tg = strconv.Itoa(next) + "+" + tg
+					}
+				}
+				parts = append(parts, fmt.Sprintf("%d:%s", c, tg))
+				if tg == "" {
+					tg = strconv.Itoa(c)
+				}
+				for _, e := range strings.Split(tg, "+") {
+					if used[e] {
+						out.Note("generator: effective address used twice")
+					}
+					used[e] = true
+					effs = append(effs, e)
+				}
+			}
+			// the order in which the client sends them matters (a before b / b before a)
+			for k := len(parts) - 1; k > 0; k-- {
+				j := r.Intn(k + 1)
+				parts[k], parts[j] = parts[j], parts[k]
+			}
 		}
 		var fails []string
 		for _, e := range effs {
